@@ -301,7 +301,7 @@ pub fn gen_record(rng: &mut Rng, fs: &[Field], inj: &mut Inject) -> Val {
         1 => { let mut v: Vec<Val> = fs.iter().map(|f| gen_val(rng, f, inj)).collect(); if rng.chance(1, 3) { v.push(Val::Int(IK::I32, 99)); } Val::TupleStruct(v) }
         2 | 3 => { // map with string keys
             let mut kvs: Vec<(Val, Val)> = vec![];
-            for f in fs { if f.nullable && rng.chance(1, 6) { continue; } kvs.push((Val::Str(f.name.clone()), gen_val(rng, f, inj))); }
+            for f in fs { if f.nullable && rng.chance(1, 6) { continue; } let key = match rng.below(10) { 0 => Val::Some(Box::new(Val::Str(f.name.clone()))), 1 => Val::Newtype(Box::new(Val::Str(f.name.clone()))), _ => Val::Str(f.name.clone()) }; kvs.push((key, gen_val(rng, f, inj))); }
             if rng.chance(1, 4) { kvs.push((Val::Str("unknown_key".into()), Val::Int(IK::I32, 1))); }
             rng.shuffle(&mut kvs);
             Val::Map(kvs)
